@@ -272,24 +272,32 @@ type fakeNet struct {
 
 var farFuture = time.Unix(4102444800, 0) // deadlines of fetch contexts never expire; the fake node ignores ctx
 
-func (n fakeNet) SlotDurationSec() time.Duration          { return 12 * time.Second }
-func (n fakeNet) SlotsPerEpoch() uint64                   { return slotsPerEpoch }
-func (n fakeNet) EstimatedCurrentSlot() phase0.Slot       { return phase0.Slot(n.w.clock.Load()) }
-func (n fakeNet) EstimatedCurrentEpoch() phase0.Epoch     { return phase0.Epoch(n.w.clock.Load() / slotsPerEpoch) }
+func (n fakeNet) SlotDurationSec() time.Duration    { return 12 * time.Second }
+func (n fakeNet) SlotsPerEpoch() uint64             { return slotsPerEpoch }
+func (n fakeNet) EstimatedCurrentSlot() phase0.Slot { return phase0.Slot(n.w.clock.Load()) }
+func (n fakeNet) EstimatedCurrentEpoch() phase0.Epoch {
+	return phase0.Epoch(n.w.clock.Load() / slotsPerEpoch)
+}
 func (n fakeNet) EstimatedEpochAtSlot(s phase0.Slot) phase0.Epoch {
 	return phase0.Epoch(uint64(s) / slotsPerEpoch)
 }
-func (n fakeNet) FirstSlotAtEpoch(e phase0.Epoch) phase0.Slot  { return phase0.Slot(uint64(e) * slotsPerEpoch) }
-func (n fakeNet) GetEpochFirstSlot(e phase0.Epoch) phase0.Slot { return phase0.Slot(uint64(e) * slotsPerEpoch) }
-func (n fakeNet) IsFirstSlotOfEpoch(s phase0.Slot) bool        { return uint64(s)%slotsPerEpoch == 0 }
-func (n fakeNet) GetSlotStartTime(phase0.Slot) time.Time       { return farFuture }
-func (n fakeNet) GetSlotEndTime(phase0.Slot) time.Time         { return farFuture }
-func (n fakeNet) EpochStartTime(phase0.Epoch) time.Time        { return farFuture }
-func (n fakeNet) EpochsPerSyncCommitteePeriod() uint64         { return epochsPerPeriod }
+func (n fakeNet) FirstSlotAtEpoch(e phase0.Epoch) phase0.Slot {
+	return phase0.Slot(uint64(e) * slotsPerEpoch)
+}
+func (n fakeNet) GetEpochFirstSlot(e phase0.Epoch) phase0.Slot {
+	return phase0.Slot(uint64(e) * slotsPerEpoch)
+}
+func (n fakeNet) IsFirstSlotOfEpoch(s phase0.Slot) bool  { return uint64(s)%slotsPerEpoch == 0 }
+func (n fakeNet) GetSlotStartTime(phase0.Slot) time.Time { return farFuture }
+func (n fakeNet) GetSlotEndTime(phase0.Slot) time.Time   { return farFuture }
+func (n fakeNet) EpochStartTime(phase0.Epoch) time.Time  { return farFuture }
+func (n fakeNet) EpochsPerSyncCommitteePeriod() uint64   { return epochsPerPeriod }
 func (n fakeNet) EstimatedSyncCommitteePeriodAtEpoch(e phase0.Epoch) uint64 {
 	return uint64(e) / epochsPerPeriod
 }
-func (n fakeNet) FirstEpochOfSyncPeriod(p uint64) phase0.Epoch { return phase0.Epoch(p * epochsPerPeriod) }
+func (n fakeNet) FirstEpochOfSyncPeriod(p uint64) phase0.Epoch {
+	return phase0.Epoch(p * epochsPerPeriod)
+}
 func (n fakeNet) LastSlotOfSyncPeriod(p uint64) phase0.Slot {
 	return phase0.Slot((p+1)*epochsPerPeriod*slotsPerEpoch - 2)
 }
